@@ -81,6 +81,11 @@ CLAIMED = {
          "Quick: 146 base ASTs covering every production x 6 positions x 4 damage kinds x 47 tokens (84 k inputs x 3 embeddings); thorough: all 7.7 k depth-1 ASTs x 12 positions (8.9 M). No panic, no hang, deterministic, non-nil result or error diagnostics, diagnostics with severity, summary and in-bounds ranges; partial bodies accept schemas without panic.",
          "Single damages on grammar-derived inputs (MaxK=1); the peeker protocol trace validation (Peeker.tla) is planned on top of this.",
          "DESIGN.md §4 C15"),
+ "C16": ("spec/GoHcl.tla (MC_C16) + MC_Dec bodies",
+         "TLC enumerates abstract values of a fixed struct family (checking the abstract round-trip law on the model); each is built as a Go value, encoded with gohcl, parsed, decoded and compared, and decoded again from the equivalent JSON document; arbitrary generated bodies are decoded into every struct type for panic-freedom",
+         "Values reachable in <= 2 (quick) / 3 (thorough) field assignments over attributes, optional attributes, pointer attributes, maps, slices, single pointer block, repeated labelled blocks by value and by pointer, nested blocks with two labels; 12 escape-relevant strings / map keys.",
+         "Equality modulo nil-vs-empty and NFC; JSON documents are decoded in literal-only mode (no evaluation context).",
+         "DESIGN.md §4 C16"),
  "C18": ("spec/DynBlock.tla + spec/HclDec.tla (MC_C18)",
          "TLC enumerates bodies mixing static and dynamic blocks with the specification's written-out static body (DynBlock!WrittenOut) and decoded value; the real dynblock.Expand + hcldec.Decode is compared with decoding the written-out body, with the model value, under unknown for_each, and in the scope pruned to the reported variables",
          "Bodies of <= 2 items (quick) / up to 3 (thorough) from ~90 dynamic-block templates (all iterable kinds incl. empty, null, non-iterable; default/custom iterators; labels from the iterator; nested static and dynamic content with outer-iterator references and shadowing) x 8 specs (list, tuple, set, single block, map, object, nested tuple-in-tuple, min/max).",
@@ -134,6 +139,7 @@ def main():
             {"name": "HclWriteTree", "path": "spec/HclWriteTree.tla", "serves_properties": ["C12"], "kind_free_text": "TLA+ edit-history machine of the hclwrite tree; TLC state dump streamed to a Go replayer"},
             {"name": "HclDec", "path": "spec/HclDec.tla", "serves_properties": ["C03", "C08", "C18"], "kind_free_text": "TLA+ model of hcldec spec kinds: ImpliedType, implied schema, Decode, JSON expressibility; generator MC_Dec; replayers harness/dec, c03, c08"},
             {"name": "Json8259", "path": "spec/Json8259.tla", "serves_properties": ["C13"], "kind_free_text": "TLA+ pushdown recogniser for RFC 8259 over byte classes; generator MC_C13"},
+            {"name": "GoHcl", "path": "spec/GoHcl.tla", "serves_properties": ["C16"], "kind_free_text": "TLA+ value generator and abstract encode/decode law for the gohcl struct family"},
             {"name": "HclLexPos", "path": "spec/HclLexPos.tla", "serves_properties": ["C14"], "kind_free_text": "TLA+ position-accounting machine (byte, line, grapheme column) over character classes; generator MC_C14"},
             {"name": "HclLexStr", "path": "spec/HclLexStr.tla", "serves_properties": ["C11"], "kind_free_text": "TLA+ model of quoted string literals over character classes (Escape/Unescape law) with value generator MC_C11"},
             {"name": "HclStruct", "path": "spec/HclStruct.tla", "serves_properties": ["C02", "C09", "C10"], "kind_free_text": "TLA+ layout machine writing native-syntax files with their abstract tree; TLC dump replayed into hclsyntax.ParseConfig"},
